@@ -235,8 +235,8 @@ def _check_resolution(res, objs, label, only=None, ids=False, idtext=None):
         keys = [('fragment', frag)] + ([('fragment', frag[1:])] if frag.startswith('#') else [])
         if ids and getattr(o, '_internal_id', None):
             keys.append(('id', o._internal_id))
-        if idtext is not None and idtext(o) is not None:
-            keys.append(('id', idtext(o)))       # the text form of the object's id attribute
+        if idtext is not None:
+            keys += [('id', t) for t in (idtext(o) or [])]       # text of the id attribute / uuid of the object
         for what, key in keys:
             n += 1
             try:
@@ -284,10 +284,11 @@ def load_edit_scenarios(ctx, out):
     from pyecore.resources.json import JsonResource
     rng = common.rng_for(ctx.seed, 'C11:load_edit')
     metamodels = {m: _lte_metamodel(E, m) for m in (None, 'str', 'int')}
-    n_models = 500 if ctx.tier != 'thorough' else 6000
+    n_models = 500 if ctx.tier != 'thorough' else 4000
     cov = {'loads': 0, 'edits': 0, 'resolutions': 0, 'moves_between_parents': 0, 'root_edits': 0,
            'documents_with_positional_refs': 0, 'abandoned': 0, 'by_format': {}, 'by_id_attribute': {},
-           'id_attribute_resolutions': 0, 'roots_with_id': 0, 'int_ids_equal_to_0': 0, 'references_compared_after_load': 0}
+           'id_attribute_resolutions': 0, 'roots_with_id': 0, 'documents_without_cross_reference': {},
+           'uuid_resolutions': 0, 'int_ids_equal_to_0': 0, 'references_compared_after_load': 0}
     samples = []
 
     def new_rs():
@@ -353,13 +354,15 @@ def load_edit_scenarios(ctx, out):
                         cov['roots_with_id'] += i < nroots
                         cov['int_ids_equal_to_0'] += idmode == 'int' and o.key == 0
             nref = 0
-            for o in objs:
+            # a quarter of the documents hold containment only: the loader has no reference to link (its other path)
+            for o in (objs if rng.random() < 0.75 else []):
                 if rng.random() < 0.6:
                     o.fav = rng.choice(objs)
                     nref += 1
                 for t in rng.sample(objs, min(len(objs), rng.choice([0, 0, 1, 2, 3]))):
                     o.links.append(t)
                     nref += 1
+            cov['documents_without_cross_reference'][fmt] = cov['documents_without_cross_reference'].get(fmt, 0) + (nref == 0)
             ext = 'json' if fmt.startswith('json') else 'xmi'
             path = os.path.join(td, f'm{it}.{ext}')
             rs = new_rs()
@@ -378,6 +381,7 @@ def load_edit_scenarios(ctx, out):
                         'id_attribute': idmode, 'history': [list(h) for h in hist]}
 
             res.save()
+            uuids = {o.name: o._internal_id for o in objs} if fmt.endswith('uuid') else {}
             rs2 = new_rs()
             try:
                 r2 = rs2.get_resource(URI(path))
@@ -394,14 +398,29 @@ def load_edit_scenarios(ctx, out):
             if nref and not fmt.endswith('uuid'):
                 cov['documents_with_positional_refs'] += 1
             known = _reach(r2)              # every object the history may use (also detached ones, later)
-            loaded_ids = {id(o): idtexts[o.name] for o in known if o.name in idtexts}
+            # the ids a loaded object must be found under: the text of its id attribute and, in a uuid resource, the
+            # uuid the SAVED object was given (taken from the saved objects, not from what the loader left behind)
+            loaded_ids = {id(o): [idtexts[o.name]] for o in known if o.name in idtexts}
+            if fmt.endswith('uuid'):
+                for o in known:
+                    if uuids.get(o.name):
+                        loaded_ids.setdefault(id(o), []).append(uuids[o.name])
             fresh = [0]
 
             def verify():
-                n, bad = _check_resolution(r2, _reach(r2), label, ids=fmt.endswith('uuid'),
-                                           idtext=(lambda o: loaded_ids.get(id(o))) if idmode else None)
+                n, bad = _check_resolution(r2, _reach(r2), label, idtext=lambda o: loaded_ids.get(id(o)))
                 cov['resolutions'] += n
-                cov['id_attribute_resolutions'] += sum(1 for o in _reach(r2) if id(o) in loaded_ids) if not bad else 0
+                if not bad:
+                    cov['id_attribute_resolutions'] += sum(1 for o in _reach(r2) if id(o) in loaded_ids and idmode)
+                    cov['uuid_resolutions'] += sum(1 for o in _reach(r2) if id(o) in loaded_ids and fmt.endswith('uuid'))
+                if not bad and fmt.endswith('uuid'):
+                    # the object itself knows the id it is registered under (what a later reference to it is written with)
+                    for o in _reach(r2):
+                        want = uuids.get(o.name) if id(o) in loaded_ids else None
+                        if want and o._internal_id != want:
+                            bad = ('id-not-kept-after-load', f'{label(o)} was saved with the uuid {want!r} and resolves '
+                                                             f'through it, but carries {o._internal_id!r} after the load')
+                            break
                 if bad:
                     sig['clause'] = bad[0]
                     out.fail(dict(sig), f'{fmt} document loaded, then {hist[-1] if len(hist) > 1 else "nothing"}: {bad[1]}', case())
@@ -555,6 +574,9 @@ MM_NAMES = {'classifier': ['A', 'B', 'C', 'D', 'Item', 'Order', 'Kind', 'Money']
             'feature': MM_MEMBERS, 'operation': MM_MEMBERS, 'typeparameter': MM_MEMBERS,
             'literal': ['l0', 'l1', 'l2', 'RED', 'GREEN'],
             'parameter': ['p', 'q', 'x', 'area']}
+# annotations are designated by position: any source is legal, also the same source twice on one element
+MM_SOURCES = ['doc', 'doc', 'GenModel', 'org.example.validation', 'a.b', 'http://www.eclipse.org/emf/2002/GenModel',
+              'http://verif/c11#note', '', None, 'x/y', '50%', 'with space']
 
 
 def metamodel_edit_scenarios(ctx, out):
@@ -570,10 +592,11 @@ def metamodel_edit_scenarios(ctx, out):
     from pyecore import ecore as E
     from pyecore.resources import ResourceSet, URI
     rng = common.rng_for(ctx.seed, 'C11:metamodel_edit')
-    n_cases = 110 if ctx.tier != 'thorough' else 1500
+    n_cases = 70 if ctx.tier != 'thorough' else 700
     cov = {'metamodels': 0, 'loaded_from_ecore': 0, 'edits': 0, 'resolutions': 0, 'by_edit': {}, 'abandoned': 0,
            'names_reused': 0, 'two_root_states': 0, 'abandoned_on': [],
-           'inherited_name_clash_states': 0, 'inherited_name_clash_elements': 0}
+           'inherited_name_clash_states': 0, 'inherited_name_clash_elements': 0,
+           'annotations_checked': 0, 'states_with_same_source_twice': 0, 'states_with_dotted_source': 0}
     samples = []
     uid = [0]
 
@@ -692,6 +715,8 @@ def metamodel_edit_scenarios(ctx, out):
             def label(o):
                 if isinstance(o, E.EObject) and kind_of(o):
                     return f'{tag(o)}({type(o).__name__} {o.name!r})'
+                if isinstance(o, E.EAnnotation):
+                    return f'{tag(o)}(EAnnotation source={o.source!r})'
                 return repr(o)
 
             def note_name(pkg, name):
@@ -747,6 +772,22 @@ def metamodel_edit_scenarios(ctx, out):
                     return E.EEnum(name, literals=rng.sample(MM_NAMES['literal'], rng.randrange(1, 4)))
                 return E.EDataType(name, instanceClassName='java.lang.Object')
 
+            def make_annotation(like=None, depth=0, classes=()):
+                a = E.EAnnotation(source=like[0] if like else rng.choice(MM_SOURCES))
+                if rng.random() < 0.6:
+                    a.details['documentation'] = 'some text'
+                if classes and rng.random() < 0.2:
+                    a.references.append(rng.choice(classes))
+                if depth < 2:
+                    r = rng.random()
+                    if r < 0.2:
+                        a.contents.append(make_annotation(depth=depth + 1))
+                    elif r < 0.35:
+                        a.contents.append(E.EAttribute(rng.choice(['note', 'extra']), E.EString))
+                    if rng.random() < 0.15:
+                        a.eAnnotations.append(make_annotation(depth=depth + 1))
+                return a
+
             def make_package(name):
                 uid[0] += 1
                 return E.EPackage(name, nsURI=f'http://verif/c11/mm/{uid[0]}', nsPrefix=f'{name}{uid[0]}')
@@ -771,8 +812,15 @@ def metamodel_edit_scenarios(ctx, out):
             res = rs.create_resource(URI(os.path.join(td, f'mm{it}.ecore')))
             for r in roots:
                 res.append(r)
+            for host in [o for o in _reach(res) if isinstance(o, E.EModelElement)]:
+                if rng.random() < 0.1:       # packages, classifiers, features, operations, parameters, literals ...
+                    for k in range(rng.choice([1, 1, 2, 3])):
+                        first = host.eAnnotations[0] if k and rng.random() < 0.5 else None      # the same source again
+                        host.eAnnotations.append(make_annotation([first.source] if first is not None else None,
+                                                                 classes=classes))
             hist = [['metamodel', 'loaded' if loaded else 'built',
-                     [[o.eURIFragment(), type(o).__name__] for o in _reach(res) if kind_of(o)]]]
+                     [[o.eURIFragment(), type(o).__name__] + ([o.source] if isinstance(o, E.EAnnotation) else [])
+                      for o in _reach(res) if kind_of(o) or isinstance(o, E.EAnnotation)]]]
             if loaded:
                 res.save()
                 rs = ResourceSet()
@@ -797,7 +845,15 @@ def metamodel_edit_scenarios(ctx, out):
                         'history': [list(h) for h in hist]}
 
             def verify(full=True):
-                objs = named()
+                objs = _reach(res)       # every element: named ones, annotations and what annotations contain
+                anns = [o for o in objs if isinstance(o, E.EAnnotation)]
+                cov['annotations_checked'] += len(anns)
+                by_host = {}
+                for a in anns:
+                    if a.eContainmentFeature().name == 'eAnnotations':
+                        by_host.setdefault(id(a.eContainer()), []).append(a.source)
+                cov['states_with_same_source_twice'] += any(len(v) != len(set(v)) for v in by_host.values())
+                cov['states_with_dotted_source'] += any('.' in (a.source or '') for a in anns)
                 only = None
                 if not full:
                     only = [o for o in objs if rng.random() < 0.4]
@@ -831,14 +887,17 @@ def metamodel_edit_scenarios(ctx, out):
                 kind = rng.choice(['add', 'add', 'rename', 'rename', 'rename-member', 'remove', 'remove', 'readd', 'readd',
                                    'swap', 'swap', 'swap-members', 'move', 'move', 'takeover', 'takeover', 'rename-package',
                                    'add-member', 'add-member', 'remove-member', 'move-member', 'root', 'move-package', 'back',
-                                   'add-super', 'add-super', 'add-super', 'remove-super', 'rename-member'])
+                                   'add-super', 'add-super', 'add-super', 'remove-super', 'rename-member',
+                                   'annotate', 'annotate', 'annotate', 'unannotate', 'unannotate', 're-source', 're-source',
+                                   'move-annotation', 'move-annotation', 'annotation-content'])
                 if pending:
                     kind = 'add'
                 elif limbo and rng.random() < 0.2:
                     kind = 'readd'
                 h = None
                 try:
-                    N = named()
+                    R = _reach(res)
+                    N = [o for o in R if kind_of(o)]
                     P = [o for o in N if isinstance(o, E.EPackage)]
                     C = [o for o in N if isinstance(o, E.EClassifier)]
                     U = closure([c for c in C + limbo if isinstance(c, E.EClass)])
@@ -1060,6 +1119,58 @@ def metamodel_edit_scenarios(ctx, out):
                         c, sup = rng.choice(pairs)
                         h = ['remove-super', tag(c), c.name, tag(sup), sup.name]
                         c.eSuperTypes.remove(sup)
+                    elif kind == 'annotate':
+                        host = rng.choice([o for o in R if isinstance(o, E.EModelElement)])
+                        same = [x.source for x in host.eAnnotations]
+                        a = make_annotation([rng.choice(same)] if same and rng.random() < 0.4 else None,
+                                            classes=[c for c in C if isinstance(c, E.EClass)])
+                        i = rng.choice([0, len(host.eAnnotations), rng.randrange(len(host.eAnnotations) + 1)])
+                        h = ['annotate', tag(host), i, a.source, tag(a)]
+                        if i == len(host.eAnnotations) and rng.random() < 0.5:
+                            host.eAnnotations.append(a)
+                        else:
+                            host.eAnnotations.insert(i, a)
+                    elif kind in ('unannotate', 're-source', 'move-annotation', 'annotation-content'):
+                        anns = [o for o in R if isinstance(o, E.EAnnotation)]
+                        if not anns:
+                            continue
+                        a = rng.choice(anns)
+                        coll = a.eContainer().eGet(a.eContainmentFeature())
+                        if kind == 'unannotate':
+                            how = rng.choice(['remove', 'pop', 'delitem'])
+                            h = ['unannotate', how, tag(a), a.source]
+                            if how == 'remove':
+                                coll.remove(a)
+                            elif how == 'pop':
+                                coll.pop(list(coll).index(a))
+                            else:
+                                del coll[list(coll).index(a)]
+                        elif kind == 're-source':
+                            others = [x.source for x in coll if x is not a and isinstance(x, E.EAnnotation)]
+                            new = rng.choice(others) if others and rng.random() < 0.5 else rng.choice(MM_SOURCES)
+                            h = ['re-source', tag(a), a.source, new]
+                            a.source = new
+                        elif kind == 'move-annotation':
+                            inside = _reach_from(a)
+                            dsts = [o for o in R if isinstance(o, E.EModelElement)
+                                    and not any(o is x for x in inside) and o is not a.eContainer()]
+                            if not dsts:
+                                continue
+                            dst = rng.choice(dsts)
+                            into = 'contents' if isinstance(dst, E.EAnnotation) and rng.random() < 0.4 else 'eAnnotations'
+                            i = rng.choice([0, len(dst.eGet(into))])
+                            h = ['move-annotation', tag(a), a.source, tag(dst), into, i]
+                            dst.eGet(into).insert(i, a)
+                        elif len(a.contents) and rng.random() < 0.4:
+                            i = rng.randrange(len(a.contents))
+                            h = ['annotation-content', 'pop', tag(a), i]
+                            a.contents.pop(i)
+                        else:
+                            used = {getattr(x, 'name', None) for x in a.contents}
+                            free = [n for n in ('note', 'extra', 'more') if n not in used]
+                            x = E.EAttribute(rng.choice(free), E.EString) if free and rng.random() < 0.5 else make_annotation(depth=1)
+                            h = ['annotation-content', 'insert', tag(a), 0, tag(x)]
+                            a.contents.insert(0, x)
                     elif kind == 'root':
                         if any(spare is r for r in res.contents):
                             h = ['root-remove', tag(spare)]
